@@ -209,6 +209,16 @@ def run(prog, rep, tier):
         nn = ("phi", cmp_("is", N, ("const", None)), ext("len", D), N)
         okbs = ch[0].recv == ext("numpy.random.default_rng", ("param", "random_state")) and b.get("a") == ext("len", D) and b.get("size") == nn and \
             b.get("replace") in (("const", True), None) and T(s5.ret) == ("sub", D, ch[0].result)
+    if not okbs:
+        # rng.integers(0, len(data), size=n): uniform positions with replacement - the same bootstrap
+        ig = [c for c in S5.select("call", qname=f5.qname) if c.callkind == "method" and c.target == ".integers"]
+        if len(ig) == 1 and not ch:
+            b, extra = api.bind_slots(api.GEN_SLOTS["integers"], ig[0].args, ig[0].kwargs)
+            D = ("param", "data")
+            nn = ("phi", cmp_("is", N, ("const", None)), ext("len", D), N)
+            lo_hi = (is_const(b.get("low"), 0) and b.get("high") == ext("len", D)) or (b.get("low") == ext("len", D) and b.get("high") is None)
+            okbs = ig[0].recv == ext("numpy.random.default_rng", ("param", "random_state")) and lo_hi and b.get("size") == nn and \
+                b.get("endpoint") in (None, ("const", False)) and T(s5.ret) == ("sub", D, ig[0].result)
     rep.check("BOOTSTRAP.rows", okbs, fwhere(f5), "_bootstrap = data[rng.choice(len(data), n or len(data), replace=True)]: observed rows only",
               "_bootstrap does not return rows of `data` indexed by one seeded choice")
     # ---------------------------------------------------------------- drf.predict(functional='sample'): which training response is handed out
